@@ -178,14 +178,22 @@ def oneshot_task(task):
             elif res == 'accepted' and out.getvalue() != payload[:(L // 1014) * 1012]:
                 acc.viol('c05.oneshot.truncation', case, 'wrong payload', 'payload of the whole blocks')
     elif kind == 'trailer':
-        blocked, payload = blocked_file(3)
+        # three contents: position-coded throughout; data followed by 0x40 fill (the usual last block, so the bytes
+        # just before the trailer are 0x40 too); all 0x40
+        contents = {'pos': blocked_file(3)[0],
+                    'padded': blk_ref.block(blk_ref.position_code(2100, _SEED)[:1012 - 5] + b'\x40' * 5 +
+                                            blk_ref.position_code(600, _SEED + 1)),
+                    'fill': blk_ref.block(b'\x40' * 3036)}
         for pos in task['positions']:
+          for cname, blocked in sorted(contents.items()):
+            if pos >= len(blocked):
+                continue
             for v in range(256):
                 if v == 0x40:
                     continue
                 bad = blocked[:pos] + bytes([v]) + blocked[pos + 1:]
-                case = {'oneshot': 'trailer', 'pos': pos, 'value': v, 'seed': _SEED}
-                acc.case(('trailer', pos, v), nontrivial=True)
+                case = {'oneshot': 'trailer', 'pos': pos, 'value': v, 'seed': _SEED, 'content': cname}
+                acc.case(('trailer', pos, v, cname), nontrivial=True)
                 try:
                     unblock_1014(io.BytesIO(bad), io.BytesIO())
                     res = 'accepted'
